@@ -2,6 +2,7 @@ package main
 
 import (
 	"flag"
+	"strings"
 	"fmt"
 	"os"
 	"time"
@@ -55,6 +56,23 @@ func main() {
 			for _, m := range sortedKeys(ms.total[fn]) {
 				fmt.Println("   ", m)
 			}
+		}
+	case "callers":
+		w, err := loadWorld("/repo")
+		if err != nil {
+			fmt.Fprintln(os.Stderr, err)
+			os.Exit(2)
+		}
+		sp := loadSpecs(w, "/verif")
+		ms := newModSets(w, sp)
+		for _, k := range os.Args[2:] {
+			st := &Structural{Kind: "callers", Pkg: strings.SplitN(k, ".", 2)[0], Target: k}
+			if strings.HasPrefix(k, "lib:") {
+				st.Pkg = "server"
+			}
+			o := structuralObligation(w, ms, st)
+			fmt.Println(k, "<-")
+			fmt.Println(o.Model)
 		}
 	case "check":
 		os.Exit(cmdCheck(os.Args[2:]))
